@@ -1,10 +1,17 @@
 """C15 — free row space is exactly the rows minus fixed obstructions."""
+GEN = ["GeomFns"]
 VARIANT = "san"
 RULE = ("see stats; includes an object-history stream (counters hist_*): public mutators and computeRows() / computeRows(extra) / "
         "Row::freespace interleaved on ONE Circuit object, every observation compared with the oracle, with a freshly rebuilt "
         "circuit of the same observable state and with the model")
 TIMEOUT = {"quick": 1200, "thorough": 3 * 3600, "search": 1800}
 PARTIAL = [
+    "the shared geometry the model is written in IS tied to the source by translation (geometry_layer_translated: the bodies of "
+    "Rectangle::Rectangle / width / height / intersects / contains / intersection, Circuit::isFixed / isObstruction / x / y / "
+    "orientation / placedWidth / placedHeight / placement and isTurn, regenerated from the clang AST on every run into "
+    "Gen/GeomFns.lean, are proved equal as functions to Rect.* / Cell.*); NOT translated: the loop of Circuit::computeRows and "
+    "Row::freespace (boost::polygon), see the next item, and the translator's stated representation map (cellX_[cell] = field x of "
+    "the cell's record)",
     "boost::polygon itself is not verified: the theorems are about the executable interval model "
     "(Model/Freespace.lean); that Row::freespace / Circuit::computeRows return exactly the model's list, in the "
     "same order, is established by the correspondence stream (exhaustive on the small grid, random to 2^22), "
@@ -22,7 +29,9 @@ ASSUMPTIONS = [
 ]
 LEVEL_TEXT = ("Lean 4 theorems over an executable interval model of Row::freespace and Circuit::computeRows (inside the row, "
               "sorted and strictly separated, full height and orientation, no obstructed column, every free column covered, "
-              "maximal, movable / non-obstruction cells ignored) for all rows and obstacle lists; the model is tied to the "
+              "maximal, movable / non-obstruction cells ignored) for all rows and obstacle lists; the Rectangle / cell-placement layer under "
+              "the model is regenerated from the C++ function bodies on every run and proved equal to the hand-written one "
+              "(geometry_layer_translated); the model is tied to the "
               "boost-based C++ by a differential stream: every row and every list of <= 2 obstacles on a small integer grid "
               "(inverted and degenerate rectangles included), random instances with <= 12 obstacles and coordinates to 2^22, "
               "and circuits with all fixed/obstruction flag combinations; the property's clauses are additionally evaluated "
@@ -32,6 +41,7 @@ LEVEL_TEXT = ("Lean 4 theorems over an executable interval model of Row::freespa
               "same observation) and checks each answer against the oracle on the current public state, against a freshly "
               "constructed circuit rebuilt through the public setters, and against the model")
 LEVEL_NOTE = ("Trusted: Lean kernel (axioms propext/Classical.choice/Quot.sound only), the hand-written model's tie to the "
-              "code (differential, bounded by the generator), unbounded Int for C++ int; boost::polygon is covered only "
+              "code (differential, bounded by the generator), tools/translate.py + clang-14 AST for Gen/GeomFns (incl. its stated "
+              "representation map array-of-fields <-> Cell record), unbounded Int for C++ int; boost::polygon is covered only "
               "through that tie.")
 TECHNIQUE = "Lean 4 proof (induction over the sorted obstacle sweep) + model/implementation correspondence stream + object-history stream (metamorphic comparison with a freshly rebuilt circuit)"
